@@ -1567,7 +1567,16 @@ UNITS = {
                    # the pop loop of endpointer_end_stream (`*out_nsamp` count), translated as a fragment: the first
                    # `while` of the function; `ep_pop(ep, &is_speech)` with the address of a local
                    {"src": "src/ps_endpointer.c", "fn": "endpointer_end_stream", "lean": "end_stream_loop",
-                    "cls": "c2lean_x15:FnXlate15", "ignore_calls": ("memcpy", "err_msg"), "first_while": True}],
+                    "cls": "c2lean_x15:FnXlate15", "ignore_calls": ("memcpy", "err_msg"), "first_while": True},
+                   # the whole of endpointer_end_stream: guards, head, loop, trailing-samples decision, ep_clear.
+                   # ep_linearize (allocation + memcpy/memmove) is NOT translated: its STATED effect on the flag ring and
+                   # on pos (new[i] = old[(pos + i) % maxlen], pos = 0) is assumed here; assert(pos == 0) is in `_ok`
+                   {"src": "src/ps_endpointer.c", "fn": "ep_clear"},
+                   {"src": "src/ps_endpointer.c", "fn": "endpointer_end_stream", "cls": "c2lean_x15:FnXlate15",
+                    "ignore_calls": ("memcpy", "err_msg"), "opaque_calls": ("vad_sample_rate",), "ptr_result": True,
+                    "effects": {"ep_linearize": [
+                        ("is_speech", 1, "(fun i => ep_is_speech (Int.tmod (ep_pos + i) ep_maxlen))", "int8"),
+                        ("pos", 0, "0", "int")]}}],
 }
 
 
